@@ -9,6 +9,13 @@
          [EvDelete t]         Deleter()(ptr_), executed by the thread whose decrement produced zero
       [EvGive t u]            a complete handle changes owner (move into another thread, e.g. at thread start/join)
       [EvUse t]               the thread dereferences one of its handles (the object must still exist)
+      [EvCloneRead t]         unify(): the thread has seen !unique() and copies the object through its handle
+                              ([new Type( *ptr_)], the element's copy constructor); same conditions as a use.
+                              unify() on a shared object is, for the ORIGINAL object, EvCloneRead followed by a release
+                              (EvFetchSub, possibly EvDelete); the clone is a new object whose own life is another
+                              instance of this system, starting when its first handle (the temporary) exists.
+                              Events of different objects touch disjoint counters, so a multi-object trace is
+                              validated by projecting it onto each object.
 
     std::atomic is sequentially consistent here (one event per operation).  The ledger flag [cbad] is set when the
     real code would misbehave: a counter operation or a use on a destroyed object, an increment that finds zero
@@ -35,7 +42,8 @@ Inductive event :=
 | EvFetchSub (t : nat) (old : nat)
 | EvDelete (t : nat)
 | EvGive (t u : nat)
-| EvUse (t : nat).
+| EvUse (t : nat)
+| EvCloneRead (t : nat).
 
 Definition pc_eqb (a b : pc) : bool :=
   match a, b with Idle, Idle | IncPending, IncPending | DelPending, DelPending => true | _, _ => false end.
@@ -88,7 +96,7 @@ Definition lstep (st : cstate) (ev : event) : option cstate :=
           else None
       | _, _ => None
       end
-  | EvUse t =>
+  | EvUse t | EvCloneRead t =>
       match nth_error (threads st) t with
       | Some th => if (1 <=? held th)
                    then Some (set_thread st t th (refcount st) (destroyed st) (0 <? destroyed st))
